@@ -111,6 +111,21 @@ pub fn load_known() -> Vec<Known> {
 
 /// Writes evidence, prints KNOWN-FINDING / VIOLATION lines, returns exit code.
 pub fn finish(mut r: Report) -> i32 {
+  // replay of an engine-S finding (`run.sh replay <file>`): the enumeration that found it is
+  // deterministic, so it is re-run and only the finding with the recorded key is looked for;
+  // nothing is written (neither evidence nor replay artefacts)
+  if let Ok(key) = std::env::var("VERIF_REPLAY_KEY") {
+    return match r.findings.iter().find(|f| f.key == key) {
+      Some(f) => {
+        println!("VIOLATION-REPLAYED {}: {} ({} occurrence(s))", f.key, f.detail, f.count);
+        1
+      }
+      None => {
+        println!("not reproduced on the current tree: {} ({} other finding key(s) in this run)", key, r.findings.len());
+        0
+      }
+    };
+  }
   let known = load_known();
   let dir = verif_dir();
   let _ = std::fs::create_dir_all(format!("{}/evidence", dir));
